@@ -133,6 +133,7 @@ def step (σ : St) (op obs : List String) : St × List Msg :=
       (σ, diffs ++ pf1 ++ pf2 ++ pf3 ++ pf4 ++ tags)
     | _, _ => (σ, [.diff "match" "no-tree" idsTok])
   | ["match", _], "error" :: _ => (σ, [.diff "match" "ok" "error"])
+  | ["begin"], _ => (σ, [])
   | ["fact", which], [v] =>
     if v = "ok" then (σ, [.tag "fact:call-sites-pinned"])
     else (σ, [.propfail "three_consumers_agree" s!"callsite-{which}" s!"the {which} consumer no longer calls Match ∘ NewRoute as pinned"])
